@@ -16,7 +16,7 @@ What is proved here, for ALL trees, states and directions:
   `A, b = assemble(state=x)` (`A` = vstack of the equations' Jacobians, `b = -residual`):
   `d/dε (-b(x + ε δ))_r |₀ = (A(x) δ)_r`.
 * `*_sound` — the smoothness hypothesis is discharged for every node kind that occurs in the operator
-  trees of the shipped models (the vocabulary of `Model.lean`, checked against the real trees by the tree
+  trees of the shipped models and for every function of `porepy/numerics/ad/functions.py` (the vocabulary of `Model.lean`, checked against the real trees by the tree
   auditor on every run): the rule formulas the real forward mode applies are sound on the stated domain.
 
 Not proved (CORE): that the Python code building the trees yields these rules at every node (checked by the
@@ -99,6 +99,10 @@ theorem pow_int_sound {m : ℕ} (c : ℤ) (a : Vec m) (ha : ∀ i, a i ≠ 0 ∨
     (ewise1 (powIntRule c (c : ℝ))).SoundAt a :=
   ewise1_soundAt _ a fun i => powInt_sound1 c (a i) (ha i)
 
+/-- `AdArray ** AdArray`, `float ** AdArray`, `ndarray ** AdArray`: sound where every base is positive -/
+theorem pow_sound {m : ℕ} (a b : Vec m) (ha : ∀ i, 0 < a i) : (ewise2 powRule).SoundAt a b :=
+  ewise2_soundAt _ a b fun i => pow_sound2 (a i) (b i) (ha i)
+
 /-- `sparse @ AdArray`, `ArraySlicer @ AdArray`, `ProjectionList @ AdArray`: `jac = M·Ja`, everywhere -/
 theorem matmul_sound {m k : ℕ} (M : Mat k m) (a : Vec m) : (linRule M).SoundAt a :=
   linRule_soundAt M a
@@ -161,6 +165,46 @@ theorem heaviside_sound {m : ℕ} (z : ℝ) (a : Vec m) (h : ∀ i, a i ≠ 0) :
     (ewise1 (heavisideRule z)).SoundAt a :=
   ewise1_soundAt _ a fun i => heaviside_hasDerivAt z (a i) (h i)
 
+/-- `l2_norm(dim, ·)` in the code's memory layout: cell `c` owns the rows `c·dim, …, c·dim + dim - 1` -/
+theorem l2_norm_rows_sound (size dim : ℕ) (v : Vec (size * dim))
+    (h : ∀ c, ∑ d, v (cellIdx size dim c d) ^ 2 ≠ 0) : (normRule (cellIdx size dim)).SoundAt v :=
+  normRule_soundAt _ v h
+
+/-- for `dim = 1` the value is `|v|`, which is why the code may (and does) call `functions.abs` -/
+theorem l2_norm_dim_one_is_abs (size : ℕ) (v : Vec (size * 1)) (c : Fin size) :
+    (normRule (cellIdx size 1)).f v c = |v (cellIdx size 1 c 0)| :=
+  normRule_dim_one_val size v c
+
+/-- `arcsin` with factor `(1 - val²) ** -0.5`: sound on `|val| < 1` -/
+theorem arcsin_sound {m : ℕ} (a : Vec m) (h : ∀ i, |a i| < 1) : (ewise1 arcsinRule).SoundAt a :=
+  ewise1_soundAt _ a fun i => arcsin_sound1 (a i) (h i)
+
+theorem arccos_sound {m : ℕ} (a : Vec m) (h : ∀ i, |a i| < 1) : (ewise1 arccosRule).SoundAt a :=
+  ewise1_soundAt _ a fun i => arccos_sound1 (a i) (h i)
+
+/-- `arcsinh` with factor `(val² + 1) ** -0.5`: sound everywhere -/
+theorem arcsinh_sound {m : ℕ} (a : Vec m) : (ewise1 arcsinhRule).SoundAt a :=
+  ewise1_soundAt _ a fun i => arcsinh_sound1 (a i)
+
+/-- `arccosh` with factor `(val - 1) ** -0.5 · (val + 1) ** -0.5`: sound on `val > 1` -/
+theorem arccosh_sound {m : ℕ} (a : Vec m) (h : ∀ i, 1 < a i) : (ewise1 arccoshRule).SoundAt a :=
+  ewise1_soundAt _ a fun i => arccosh_sound1 (a i) (h i)
+
+/-- `arctanh` with factor `(1 - val²) ** -1`: sound on `|val| < 1` -/
+theorem arctanh_sound {m : ℕ} (a : Vec m) (h : ∀ i, |a i| < 1) : (ewise1 arctanhRule).SoundAt a :=
+  ewise1_soundAt _ a fun i => arctanh_sound1 (a i) (h i)
+
+/-- `safe_power(power, zero_val, tol, ·)` (as repaired: factor `power · val ** (power-1)` where the power is
+    taken, 0 where `zero_val` is assigned): sound away from `|val| = tol` -/
+theorem safe_power_sound {m : ℕ} (p z tol : ℝ) (htol : 0 ≤ tol) (a : Vec m) (h : ∀ i, |a i| ≠ tol) :
+    (ewise1 (safePowerRule p z tol)).SoundAt a :=
+  ewise1_soundAt _ a fun i => safePower_sound1 p z tol (a i) htol (h i)
+
+/-- `heaviside_smooth(·, eps)`: `½(1 + 2/π·arctan(val/eps))` with factor `eps/π/(eps² + val²)`, sound everywhere -/
+theorem heaviside_smooth_sound {m : ℕ} (eps : ℝ) (he : eps ≠ 0) (a : Vec m) :
+    (ewise1 (heavisideSmoothRule eps)).SoundAt a :=
+  ewise1_soundAt _ a fun i => heavisideSmooth_sound1 eps (a i) he
+
 /-! ## non-vacuity: a concrete two-equation system over three unknowns -/
 
 section example_system
@@ -208,6 +252,29 @@ example : kinkTree.Smooth ![0, 2, 1] := by
   refine ⟨⟨trivial, trivial, maximum_sound _ _ ?_⟩, trivial, div_sound _ _ ?_⟩
   · intro i; fin_cases i <;> simp [Tree.val, pDofs, lDofs]
   · intro i; fin_cases i <;> simp [Tree.val, lDofs]
+
+/-- the contact-mechanics shape `t + max(-t - c·(u - g), 0)` together with `‖·‖` and the open-state
+    characteristic function, at a state off all three kinks -/
+noncomputable def contactTree : Tree 3 1 :=
+  .bin (ewise2 addRule)
+    (.bin (ewise2 maxRule) (.un (linRule !![-1, -2, 0]) (.var id)) (.const ![0]))
+    (.bin (ewise2 mulRule)
+      (.un (ewise1 (charRule (1 / 10))) (.un (linRule !![0, 0, 1]) (.var id)))
+      (.un (normRule (cellIdx 1 2)) (.un (linRule !![1, 0, 0; 0, 1, 0]) (.var id))))
+
+example : contactTree.Smooth ![1, 2, 3] := by
+  refine ⟨⟨⟨trivial, matmul_sound _ _⟩, trivial, maximum_sound _ _ ?_⟩,
+    ⟨⟨⟨trivial, matmul_sound _ _⟩, characteristic_sound _ _ ?_⟩,
+     ⟨⟨trivial, matmul_sound _ _⟩, l2_norm_rows_sound 1 2 _ ?_⟩, mul_sound _ _⟩, add_sound _ _⟩
+  · intro i; fin_cases i
+    simp [Tree.val, linRule, dotProduct, Fin.sum_univ_three]
+    norm_num
+  · intro i; fin_cases i
+    simp [Tree.val, linRule, dotProduct, Fin.sum_univ_three]
+    norm_num
+  · intro c; fin_cases c
+    simp [Tree.val, linRule, dotProduct, Fin.sum_univ_three, Fin.sum_univ_two, cellIdx]
+    norm_num
 
 end example_system
 
